@@ -12,7 +12,7 @@ BOUNDS = {
              'option strings: all sequences of <=4 tokens from a 9 token alphabet joined by commas + every single token',
     'thorough': 'N=24 (slices), Sample(k) k in 1..50, n in 0..48; option strings: <=5 tokens from an 11 token alphabet',
 }
-RULE = ('full product of (n, start, stop, step) / (k, n) / comma-joined token sequences, each enumerated once; '
+RULE = ('(also: one selector object applied to every length in turn, ascending then descending, as one --frame-slice option is applied to every frame array) full product of (n, start, stop, step) / (k, n) / comma-joined token sequences, each enumerated once; '
         'non-trivial = the selection is non-empty and not the whole sequence (slices, samples) or the string has a comma '
         'or is rejected (options); outcome = the index list / accept-reject verdict')
 ASSUMPTIONS = ['Slice.last()/Sample.last() are not in the statement (pinned by the suite) and are exercised only through C11',
@@ -30,6 +30,7 @@ def shards(tier):
     N = _N(tier)
     out = [{'kind': 'slice', 'n': n} for n in range(N + 1)]
     out += [{'kind': 'sample', 'k': k} for k in range(1, 2 * N + 3)]
+    out += [{'kind': 'slice_hist', 'start': a} for a in [None] + list(range(-N, N + 1))]
     toks = TOKENS_Q if tier == 'quick' else TOKENS_T
     out += [{'kind': 'opt', 'first': t} for t in toks]
     out += [{'kind': 'ctor'}]
@@ -37,13 +38,13 @@ def shards(tier):
 
 
 # ---------------------------------------------------------------------------------------------
-def check_slice(n, start, stop, step):
-    """Return list of (sigkind, message)."""
+def check_slice(n, start, stop, step, obj=None):
+    """Return list of (sigkind, message).  obj: a selector object that has already been used on other lengths."""
     from TotalDepth.common import Slice
     bad = []
     exp = list(range(n))[slice(start, stop, step)]
     try:
-        s = Slice.Slice(start, stop, step)
+        s = obj if obj is not None else Slice.Slice(start, stop, step)
         ind = s.indices(n)
         gen = list(s.gen_indices(n))
         cnt = s.count(n)
@@ -83,12 +84,12 @@ def sample_ok(ind, k, n):
     return None
 
 
-def check_sample(k, n):
+def check_sample(k, n, obj=None):
     from TotalDepth.common import Slice
     bad = []
     ind = None
     try:
-        s = Slice.Sample(k)
+        s = obj if obj is not None else Slice.Sample(k)
         ind = s.indices(n)
         gen = list(s.gen_indices(n))
         cnt = s.count(n)
@@ -225,6 +226,30 @@ def run_shard(shard, tier):
             res.case((k, n), nontrivial=0 < k < n, outcome=tuple(ind or ()), sample=case if n == 7 else None)
             for kind, msg in bad:
                 res.violate({'kind': kind}, case, msg)
+        # one selector object applied to many lengths in turn (as one --frame-slice option is applied to every frame array)
+        from TotalDepth.common import Slice
+        shared = Slice.Sample(k)
+        lengths = list(range(0, 2 * N + 1)) + list(range(2 * N, -1, -1)) + [k, 2 * k + 1, k]
+        for i, n in enumerate(lengths):
+            bad, ind = check_sample(k, n, shared)
+            case = {'kind': 'sample', 'k': k, 'n': n, 'history': lengths[:i]}
+            res.case(('shared', k, i), nontrivial=True, outcome=tuple(ind or ()))
+            for kind, msg in bad:
+                res.violate({'kind': kind + '_after_other_lengths'}, case, 'one Sample(%d) object after lengths %r: %s' % (k, lengths[max(0, i - 3):i], msg))
+    elif shard['kind'] == 'slice_hist':
+        from TotalDepth.common import Slice
+        rng = [None] + list(range(-N, N + 1))
+        steps = [None] + list(range(1, N + 1))
+        lengths = list(range(0, N + 1)) + list(range(N, -1, -1))
+        for stop, step in itertools.product(rng, steps):
+            shared = Slice.Slice(shard['start'], stop, step)
+            for i, n in enumerate(lengths):
+                bad, exp = check_slice(n, shard['start'], stop, step, shared)
+                case = {'kind': 'slice', 'n': n, 'start': shard['start'], 'stop': stop, 'step': step, 'history': lengths[:i]}
+                res.case(('shared', shard['start'], stop, step, i), nontrivial=True, outcome=tuple(exp))
+                for kind, msg in bad:
+                    res.violate({'kind': kind + '_after_other_lengths'}, case,
+                                'one Slice(%r,%r,%r) object after lengths %r, on n=%d: %s' % (shard['start'], stop, step, lengths[max(0, i - 3):i], n, msg))
     elif shard['kind'] == 'opt':
         toks = TOKENS_Q if tier == 'quick' else TOKENS_T
         depth = 4 if tier == 'quick' else 5
@@ -251,10 +276,21 @@ def run_shard(shard, tier):
 
 def replay(case):
     k = case['kind']
+    from TotalDepth.common import Slice
     if k == 'slice':
-        bad, _ = check_slice(case['n'], case['start'], case['stop'], case['step'])
+        obj = None
+        if 'history' in case:
+            obj = Slice.Slice(case['start'], case['stop'], case['step'])
+            for n in case['history']:
+                check_slice(n, case['start'], case['stop'], case['step'], obj)
+        bad, _ = check_slice(case['n'], case['start'], case['stop'], case['step'], obj)
     elif k == 'sample':
-        bad, _ = check_sample(case['k'], case['n'])
+        obj = None
+        if 'history' in case:
+            obj = Slice.Sample(case['k'])
+            for n in case['history']:
+                check_sample(case['k'], n, obj)
+        bad, _ = check_sample(case['k'], case['n'], obj)
     elif k == 'opt':
         bad, _ = check_opt(case['text'])
     else:
